@@ -202,6 +202,8 @@ def harnesses(tier):
     return [
         ("li", h_li, [dict(n=n) for n in ns] + ([dict(n=2, kind="cz")] if tier != "quick" else []), dict(max_seconds=3000)),
         ("gate-fidelity", h_gate_fidelity, [dict(n=n, same=s) for n in ns for s in (False, True)], dict(max_seconds=3000)),
+        ("li.raw", h_li, [dict(n=1)], dict(raw=True)),
+        ("gate-fidelity.raw", h_gate_fidelity, [dict(n=1, same=False)], dict(raw=True)),
         ("mle-forward-model", h_mle_forward, [dict()]),
         ("mle-tp-projection", h_mle_tp, [dict()]),
     ]
